@@ -28,17 +28,18 @@ def names():
         out = []
         for li, (lang, loc) in enumerate(LOCS):
             info = vocab.locale_info(lang, loc)
+            lst = vocab.listings(info, normalize=False)
             for norm in (True, False):
-                lst = vocab.listings(info, normalize=norm)
                 seen = set()
                 for key in vocab.MONTH_KEYS + vocab.WEEKDAY_KEYS:
                     for name in info.get(key) or []:
                         low = name.lower()
-                        n = vocab.strip_accents(low) if norm else low
-                        if not n.strip() or (key, n) in seen:
+                        if not low.strip() or (key, low) in seen:
                             continue
-                        seen.add((key, n))
-                        if lst.get(n) != {key}:
+                        seen.add((key, low))
+                        # single meaning = the spelling as listed stands under exactly one key of this locale.  Spellings that
+                        # only collide after accent stripping are NOT excluded: each is listed with one meaning
+                        if lst.get(low) != {key}:
                             continue
                         out.append((li, key, name, norm))
         _N = out
